@@ -217,8 +217,44 @@ def one(job):
         shutil.rmtree(tmp, ignore_errors=True)
 
 
+def recheck(job):
+    """one surviving edit again, against every check as it is now"""
+    rec = job
+    i, variant = rec["key"].split("/", 1)
+    src = open(os.path.join(REPO, rec["file"])).read()
+    tree = ast.parse(src)
+    apply(tree, int(i), variant)
+    ast.fix_missing_locations(tree)
+    tmp = tempfile.mkdtemp(prefix="msv_")
+    try:
+        shutil.copytree(os.path.join(REPO, "discopy"), os.path.join(tmp, "discopy"), ignore=shutil.ignore_patterns("__pycache__"))
+        open(os.path.join(tmp, rec["file"]), "w").write(ast.unparse(tree) + "\n")
+        res = {}
+        for p in props():
+            r = run([sys.executable, "-m", "sa.check", p, "--repo", tmp, "--out", os.path.join(tmp, "_o")], cwd=VERIF, timeout=900)
+            res[p] = {0: "silent", 1: "violation", 2: "analysis-error"}.get(r.returncode, str(r.returncode))
+        out = dict(rec)
+        out["checks"] = {p: v for p, v in res.items() if v != "silent"}
+        return out
+    finally:
+        shutil.rmtree(tmp, ignore_errors=True)
+
+
 def main():
     args = sys.argv[1:]
+    if args and args[0] == "--recheck":
+        src, out = args[1], args[2]
+        jobs = int(args[3]) if len(args) > 3 else 14
+        rows = [json.loads(l) for l in open(src)]
+        todo = [r for r in rows if r["suite"] == "pass" and "violation" not in r.get("checks", {}).values()]
+        print("%d surviving edits without a violation to check again" % len(todo), flush=True)
+        with open(out, "w") as fh, ThreadPoolExecutor(jobs) as ex:
+            for k, rec in enumerate(ex.map(recheck, todo)):
+                fh.write(json.dumps(rec) + "\n")
+                fh.flush()
+                if (k + 1) % 100 == 0:
+                    print(k + 1, flush=True)
+        return
     jobs, only, skip, limit, out = 16, None, None, None, os.path.join(tempfile.gettempdir(), "mutsurvey.jsonl")
     while args:
         a = args.pop(0)
